@@ -9,5 +9,6 @@ var All = []*ev.Property{
 	C11,
 	C14,
 	C15,
+	C19,
 	C20,
 }
